@@ -331,7 +331,7 @@ if a.tier == "exhaustive":
                 nh += 1
     info = {"exhaustive_bound": "every history of <= 4 operations from a 17-letter alphabet (hide/show/restack/move/expose/scroll/scrollrect/close/terminal-resize/flush) on a fixed tree of 3 overlapping windows, all three scroll oracles for length <= 3", "histories": nh}
 else:
-    H = 5000 if a.tier == "quick" else 15000
+    H = 5000 if a.tier == "quick" else 40000
     for i in range(H):
         history(i, a.tier != "quick")
     stats["histories"] = H
